@@ -96,7 +96,7 @@ func derefOutcome(v types.MalType, e error) string {
 }
 
 // one scenario; deterministic=true replays the model's counterexample window through a gate
-func runFutureScenario(rec *futRecorder, rnd *rand.Rand, body string, deterministic bool, deadctx bool) error {
+func runFutureScenario(rec *futRecorder, rnd *rand.Rand, body string, deterministic bool, deadctx bool, cancelrace bool) error {
 	ns, probe, err := NewLoadedEnv()
 	if err != nil {
 		return err
@@ -149,7 +149,27 @@ func runFutureScenario(rec *futRecorder, rnd *rand.Rand, body string, determinis
 	var once sync.Once
 	rec.mu.Lock()
 	rec.fut = nil
-	if deadctx {
+	checked := make(chan struct{})
+	queried := make(chan struct{})
+	var checkedOnce sync.Once
+	if cancelrace {
+		// the model's P5 counterexample of the design whose cancel checks and marks in two steps: the canceller is
+		// held between its check and its mark while the body completes, a deref returns and future-cancelled? is
+		// asked.  (Where check-and-mark is one critical section the hook is reached under the future's lock: the body
+		// cannot complete meanwhile and the waits below simply time out.)
+		rec.gate = func(point string) {
+			switch point {
+			case "future.start":
+				<-release
+			case "cancel.checked":
+				checkedOnce.Do(func() { close(checked) })
+				select {
+				case <-queried:
+				case <-time.After(150 * time.Millisecond):
+				}
+			}
+		}
+	} else if deadctx {
 		rec.gate = func(point string) {
 			if point == "future.start" {
 				<-release // hold the body before it starts evaluating
@@ -188,7 +208,30 @@ func runFutureScenario(rec *futRecorder, rnd *rand.Rand, body string, determinis
 		}
 		rec.emit(ev)
 	}
-	if deadctx {
+	if cancelrace {
+		cdone := make(chan struct{})
+		go func() { op(2, "cancel", "(future-cancel f)", ctx); close(cdone) }()
+		select {
+		case <-checked:
+		case <-time.After(2 * time.Second):
+		}
+		once.Do(func() { close(release) }) // the body runs now
+		short, cf := context.WithTimeout(ctx, 60*time.Millisecond)
+		op(1, "deref", "@f", short)
+		cf()
+		q := make(chan struct{})
+		go func() { op(1, "cancelled?", "(future-cancelled? f)", ctx); close(q) }()
+		select {
+		case <-q:
+		case <-time.After(300 * time.Millisecond):
+		}
+		close(queried)
+		<-q
+		<-cdone
+		op(1, "deref", "@f", ctx)
+		op(1, "cancelled?", "(future-cancelled? f)", ctx)
+		op(1, "done?", "(future-done? f)", ctx)
+	} else if deadctx {
 		// P7 / "blocks until the outcome is available OR THE CALLER'S CONTEXT ENDS": the body is held before it
 		// evaluates anything; a deref whose caller context has already ended must return (DerefCtx in the model),
 		// before and after future-cancel
@@ -345,7 +388,7 @@ func cmdFutures(args []string) {
 	run := func(body string, det bool, deadctx ...bool) {
 		rec.events = rec.events[:0]
 		total++
-		if e := runFutureScenario(rec, rnd, body, det, len(deadctx) > 0); e != nil {
+		if e := runFutureScenario(rec, rnd, body, det, len(deadctx) == 1, len(deadctx) == 2); e != nil {
 			if strings.HasPrefix(e.Error(), "HANG") {
 				hangs = append(hangs, e.Error())
 				return
@@ -364,6 +407,9 @@ func cmdFutures(args []string) {
 	}
 	for _, b := range bodies {
 		run(b, true, true) // derefs with an ended caller context while the body cannot finish
+	}
+	for _, b := range []string{"value", "ignores", "value", "error"} {
+		run(b, true, true, true) // the canceller held between its check and its mark
 	}
 	for i := 0; i < *n; i++ {
 		run(bodies[rnd.Intn(len(bodies))], false)
